@@ -40,7 +40,7 @@ CONSTANTS Miners,       \* coinbase identities (small integers)
           MaxBlocks, MaxHeight,
           BaseReward, Fee,
           WorkShares,   \* pool of extra work shares (small integers)
-          WSMiner, WSNumber, WSWeight, WSByte,   \* attributes of the pool's shares (functions over WorkShares)
+          WSMiner(_), WSNumber(_), WSWeight(_), WSByte(_),   \* attributes of a work share, derived from its id
           CheckAmounts, \* FALSE for implementation traces (amounts are abstracted to 1 there, exactness is the oracle's job)
           DeepForks,    \* also fork two blocks below the head
           Profiles      \* what a block's miner may ask for: set of <<miner, byte, layout, contract>>
@@ -64,14 +64,14 @@ OnChain(a, b) == a \in {Chain(b)[i] : i \in 1..Len(Chain(b))}
 
 OwnShare(k) == k               \* share ids: a block's own share is its id, pool shares are 100 + id
 WS(k) == 100 + k
-ShareNumber(s) == IF s >= 100 THEN WSNumber[s - 100] ELSE blocks[s].height
-ShareWeight(s) == IF s >= 100 THEN WSWeight[s - 100] ELSE 2
+ShareNumber(s) == IF s >= 100 THEN WSNumber(s - 100) ELSE blocks[s].height
+ShareWeight(s) == IF s >= 100 THEN WSWeight(s - 100) ELSE 2
 
 ----------------------------------------------------------------------------
 \* reward issuance (Process: "go through the last WorkSharesInclusionDepth of blocks")
 \* shares of the target height: the target block's own share, then the work shares of that height found in the
 \* uncle lists of parent, grandparent, ..., target block, and of the issuing block itself
-UnclesAtHeight(S, t) == SetToSortSeq({WS(k) : k \in {x \in S : WSNumber[x] = t}}, <)
+UnclesAtHeight(S, t) == SetToSortSeq({WS(k) : k \in {x \in S : WSNumber(x) = t}}, <)
 \* for a block at height h on parent p including the work shares unc
 ExpectedSharesFor(p, h, unc) ==
     LET t == h - InclDepth
@@ -90,7 +90,7 @@ SumWeights(seq, i) == IF i > Len(seq) THEN 0 ELSE ShareWeight(seq[i]) + SumWeigh
 ShareAmount(seq, i) == (BaseReward * ShareWeight(seq[i])) \div SumWeights(seq, 1)
 
 \* what the miner of share s asked for (own share: the block's header fields; pool share: fixed attributes)
-AttrOf(s) == IF s >= 100 THEN [miner |-> WSMiner[s - 100], byte |-> WSByte[s - 100], layout |-> "plain", contract |-> 0]
+AttrOf(s) == IF s >= 100 THEN [miner |-> WSMiner(s - 100), byte |-> WSByte(s - 100), layout |-> "plain", contract |-> 0]
              ELSE [miner |-> blocks[s].miner, byte |-> blocks[s].byte, layout |-> blocks[s].layout, contract |-> blocks[s].contract]
 
 \* a reward: [id, share, miner, byte, layout, contract, amt]
@@ -112,14 +112,15 @@ EpochOf(h) == (h \div Epoch) + 1
 Key(r, h) == <<r.contract, r.miner, r.byte, EpochOf(h)>>
 
 EmptyLedger == [bal |-> [m \in Miners |-> 0], exists |-> Miners \ NewAccounts,
-                credits |-> {},   \* <<reward id, height, amount>>: plain Quai rewards credited
-                mints |-> {},     \* <<reward id, lock height, amount>>: Qi outputs
-                locks |-> {},     \* [key, rs (set of <<reward id, amount>>), unlock]: live tranche records
+                credits |-> {},   \* <<reward id, height, amount, miner, byte, arrival height, adjusted amount>>: plain Quai rewards credited
+                mints |-> {},     \* <<reward id, lock height, amount, byte, arrival height>>: Qi outputs
+                locks |-> {},     \* [key, rs (set of <<reward id, amount, arrival height>>), unlock]: live tranche records
                 paid |-> {},      \* [key, rs, height, caller]: claims paid
                 lost |-> {},      \* reward ids that can never be spent (malformed data, no code, fee not covered)
                 arr |-> {},       \* [r, h]: every reward that arrived on this chain, with its arrival height
                 iss |-> <<>>,     \* every reward issued on this chain
-                out |-> <<>>]     \* issued, not yet arrived (in issuance order)
+                out |-> <<>>,     \* issued, not yet arrived (in issuance order)
+                uncles |-> {}, nunc |-> 0]   \* work shares included on this chain, and how many inclusions there were
 
 \* RedeemLockedQuai: for each depth in table order, the rewards that arrived Depth blocks ago
 RECURSIVE RedeemSeq(_, _, _, _, _)
@@ -129,9 +130,10 @@ RedeemSeq(L, seq, i, d, h) ==
          IF IsQi(r.miner) \/ r.layout # "plain" \/ Depth[r.byte + 1] # d THEN RedeemSeq(L, seq, i + 1, d, h)
          ELSE LET a == Adjust(r.amt, r.byte, h) IN
               IF r.miner \in L.exists
-              THEN RedeemSeq([L EXCEPT !.bal[r.miner] = @ + a, !.credits = @ \cup {<<r.id, h, a>>}], seq, i + 1, d, h)
+              THEN RedeemSeq([L EXCEPT !.bal[r.miner] = @ + a, !.credits = @ \cup {<<r.id, h, a, r.miner, r.byte, h - d, a, r.amt>>}], seq, i + 1, d, h)
               ELSE IF a >= Fee
-                   THEN RedeemSeq([L EXCEPT !.bal[r.miner] = @ + a - Fee, !.exists = @ \cup {r.miner}, !.credits = @ \cup {<<r.id, h, a - Fee>>}], seq, i + 1, d, h)
+                   THEN RedeemSeq([L EXCEPT !.bal[r.miner] = @ + a - Fee, !.exists = @ \cup {r.miner},
+                                            !.credits = @ \cup {<<r.id, h, a - Fee, r.miner, r.byte, h - d, a, r.amt>>}], seq, i + 1, d, h)
                    ELSE RedeemSeq([L EXCEPT !.lost = @ \cup {r.id}], seq, i + 1, d, h)
 
 RECURSIVE RedeemAll(_, _, _, _)
@@ -150,9 +152,9 @@ AddNewLock(L, r, h) ==
         old == LockOf(L, key)
         ul  == h + Depth[r.byte + 1]
     IN  IF old = {}
-        THEN [L EXCEPT !.locks = @ \cup {[key |-> key, rs |-> {<<r.id, a>>}, unlock |-> ul - (ul % Epoch)]}]
+        THEN [L EXCEPT !.locks = @ \cup {[key |-> key, rs |-> {<<r.id, a, h>>}, unlock |-> ul - (ul % Epoch)]}]
         ELSE LET o == CHOOSE x \in old : TRUE
-             IN  [L EXCEPT !.locks = (@ \ old) \cup {[o EXCEPT !.rs = @ \cup {<<r.id, a>>}]}]
+             IN  [L EXCEPT !.locks = (@ \ old) \cup {[o EXCEPT !.rs = @ \cup {<<r.id, a, h>>}]}]
 
 RECURSIVE ArriveSeq(_, _, _, _)
 ArriveSeq(L, seq, i, h) ==
@@ -163,7 +165,7 @@ ArriveSeq(L, seq, i, h) ==
               THEN IF r.contract \in Contracts THEN ArriveSeq(AddNewLock(L, r, h), seq, i + 1, h)
                    ELSE ArriveSeq([L EXCEPT !.lost = @ \cup {r.id}], seq, i + 1, h)
          ELSE IF IsQi(r.miner)
-              THEN ArriveSeq([L EXCEPT !.mints = @ \cup {<<r.id, h + Depth[r.byte + 1], Adjust(r.amt, r.byte, h)>>}], seq, i + 1, h)
+              THEN ArriveSeq([L EXCEPT !.mints = @ \cup {<<r.id, h + Depth[r.byte + 1], Adjust(r.amt, r.byte, h), r.byte, h>>}], seq, i + 1, h)
               ELSE ArriveSeq(L, seq, i + 1, h)       \* plain Quai: credited by the redemption scan later
 
 \* ClaimCoinbaseLockup: the record is looked up under the CALLER's address
@@ -188,6 +190,7 @@ StepLedger(L, p, rec) ==
         got == {rec.arrive[i].id : i \in DOMAIN rec.arrive}
     IN  [L1 EXCEPT !.arr = @ \cup {[r |-> rec.arrive[i], h |-> h] : i \in DOMAIN rec.arrive},
                    !.iss = @ \o rec.issued,
+                   !.uncles = @ \cup rec.uncles, !.nunc = @ + Cardinality(rec.uncles),
                    !.out = SelectSeq(@, LAMBDA r : r.id \notin got) \o rec.issued]
 
 ----------------------------------------------------------------------------
@@ -199,7 +202,7 @@ IncludableShares(p, h) ==
     LET c == Chain(p)
         recent == {c[i] : i \in {j \in 1..Len(c) : j > Len(c) - InclDepth}}
         banned == UNION {blocks[a].uncles : a \in recent}
-    IN  {k \in WorkShares : WSNumber[k] <= h /\ WSNumber[k] + InclDepth >= h /\ k \notin banned}
+    IN  {k \in WorkShares : WSNumber(k) <= h /\ WSNumber(k) + InclDepth >= h /\ k \notin banned}
 
 AddBlock(id, rec) ==
     /\ blocks' = blocks @@ (id :> rec)
@@ -257,9 +260,10 @@ RewardById(b, rid) == ArrOf(b, rid).r
 ShareRewardedAtMostOncePerChain ==
     \A b \in {cur} :
         LET iss == RewardsIssuedOn(b) IN
-        /\ \A i, j \in DOMAIN iss : i # j => (iss[i].share # iss[j].share /\ iss[i].id # iss[j].id)
-        /\ \A x, y \in {Chain(b)[i] : i \in 1..Len(Chain(b))} : x # y => blocks[x].uncles \cap blocks[y].uncles = {}
-        /\ \A x, y \in led[b].arr : x.r.id = y.r.id => x = y
+        /\ Cardinality({iss[i].share : i \in DOMAIN iss}) = Len(iss)          \* no share rewarded twice
+        /\ Cardinality({iss[i].id : i \in DOMAIN iss}) = Len(iss)
+        /\ Cardinality(led[b].uncles) = led[b].nunc                         \* no work share included twice
+        /\ Cardinality({x.r.id : x \in led[b].arr}) = Cardinality(led[b].arr)   \* no reward delivered twice
 
 \* rewards are issued only for the shares of the block InclDepth below, with the split formula
 RewardAmountIsFormula ==
@@ -279,29 +283,27 @@ RewardAmountIsFormula ==
 CreditExactlyAtUnlock ==
     \A b \in {cur} :
         LET L == led[b] IN
-        /\ \A c \in L.credits : c[2] = ArrivalHeight(b, c[1]) + Depth[RewardById(b, c[1]).byte + 1]
-        /\ \A c, d \in L.credits : c[1] = d[1] => c = d
-        /\ \A x \in L.arr :
-              (~IsQi(x.r.miner) /\ x.r.layout = "plain" /\ x.h + Depth[x.r.byte + 1] <= blocks[b].height)
-                  => (x.r.id \in {c[1] : c \in L.credits} \/ x.r.id \in L.lost)
-        /\ \A m \in L.mints : m[2] = ArrivalHeight(b, m[1]) + Depth[RewardById(b, m[1]).byte + 1]
+        /\ \A c \in L.credits : c[2] = c[6] + Depth[c[5] + 1]
+        /\ Cardinality({c[1] : c \in L.credits}) = Cardinality(L.credits)
+        /\ {x.r.id : x \in {y \in L.arr : ~IsQi(y.r.miner) /\ y.r.layout = "plain" /\ y.h + Depth[y.r.byte + 1] <= blocks[b].height}}
+              \subseteq ({c[1] : c \in L.credits} \cup L.lost)
+        /\ {<<c[1], c[6], c[8], c[5]>> : c \in L.credits} \subseteq {<<x.r.id, x.h, x.r.amt, x.r.byte>> : x \in L.arr}
+        /\ \A m \in L.mints : m[2] = m[5] + Depth[m[4] + 1]
 
 \* with exactly the lockup-adjusted amount (less the account-creation fee once per new account)
 CreditAmountExact ==
     \A b \in {cur} :
         LET L == led[b] IN
-        /\ \A c \in L.credits :
-              LET r == RewardById(b, c[1]) IN c[3] = Adjust(r.amt, r.byte, c[2]) \/ c[3] = Adjust(r.amt, r.byte, c[2]) - Fee
-        /\ \A m \in Miners : Cardinality({c \in L.credits : RewardById(b, c[1]).miner = m /\ c[3] # Adjust(RewardById(b, c[1]).amt, RewardById(b, c[1]).byte, c[2])})
-                                 <= (IF m \in NewAccounts THEN 1 ELSE 0)
-        /\ \A m \in Miners : L.bal[m] = SumCredits({c \in L.credits : RewardById(b, c[1]).miner = m})
+        /\ \A c \in L.credits : (c[3] = c[7] \/ c[3] = c[7] - Fee) /\ c[7] = Adjust(c[8], c[5], c[2])
+        /\ \A m \in Miners : Cardinality({c \in L.credits : c[4] = m /\ c[3] # c[7]}) <= (IF m \in NewAccounts THEN 1 ELSE 0)
+        /\ \A m \in Miners : L.bal[m] = SumCredits({c \in L.credits : c[4] = m})
 
 \* a tranche is paid only to its owner, only after its unlock height and after its epoch ended, and only once
 ClaimOnlyOwnerAfterUnlockOnce ==
     \A b \in {cur} :
         LET L == led[b] IN
         /\ \A p \in L.paid : p.caller = p.key[1] /\ p.key[4] < EpochOf(p.height)
-                               /\ \A x \in p.rs : ArrivalHeight(b, x[1]) <= p.height
+                               /\ \A x \in p.rs : x[3] <= p.height
         /\ \A p, q \in L.paid : p # q => {x[1] : x \in p.rs} \cap {x[1] : x \in q.rs} = {}
         /\ \A p \in L.paid, x \in L.locks : {y[1] : y \in p.rs} \cap {y[1] : y \in x.rs} = {}
 
